@@ -721,8 +721,11 @@ pub fn replay<S: Scenario>(scn: &S, h: &[Action], kind: &str) -> (bool, Vec<Stri
         std::process::exit(2);
     }
     if let Some(d) = &a.divergence {
-        eprintln!("MACHINERY replay divergence: {d}");
-        std::process::exit(2);
+        // both runs agree (checked above), so this is not nondeterminism: on the current tree
+        // the recorded history cannot be followed, i.e. the code no longer behaves as it did
+        // when the violation was recorded
+        println!("replay: the recorded history cannot be followed on the current tree ({d}); the recorded violation does not occur");
+        std::process::exit(0);
     }
     let hit = a.viols.iter().any(|v| v.kind == kind || kind.is_empty());
     let mut out = a.log.clone();
